@@ -53,6 +53,10 @@ TREES = [
     "x = a.y or b\nz = c.d < e[0]\nmatch s:\n    case [p, q] | None: pass",
     # containers whose elements live in two parallel lists (pairs), the last pair with children of its own
     "d = {a: b.c, e: [g, h]}\nmatch s:\n    case {1: [p, q], 2: C(r)}: pass\n    case {3: t, **u}: pass",
+    # the only handler of a try (replaced by one of the other kind the statement changes class) and elements whose removal takes a
+    # dependent neighbour with it (raise X from Y, a handler's type with its name)
+    "try:\n    a\nexcept* E as e:\n    b(c)\nelse:\n    d\ng",
+    "def f():\n    try:\n        raise L(p) from x.c\n    except (K, V) as k:\n        raise\n    return r",
 ]
 for _t in TREES:
     ast.parse(_t)
@@ -97,8 +101,9 @@ def code_for(node, big):
         return 'al'
     if isinstance(a, ast.withitem):
         return 'wi as wv'
-    if isinstance(a, ast.excepthandler):
-        return 'except X: pass'
+    if isinstance(a, ast.excepthandler):  # the big one is of the other kind: put over the only handler it turns Try into TryStar and back
+        star = isinstance(getattr(getattr(node, 'parent', None), 'a', None), ast.TryStar)
+        return ('except X: pass' if star else 'except* (X, Y) as z:\n    w(v)') if big else ('except* X: pass' if star else 'except X: pass')
     if isinstance(a, ast.match_case):
         return 'case 9: pass'
     if isinstance(a, ast.comprehension):
@@ -257,6 +262,8 @@ def run_script(fst, ti, si, script, res, consumer='walk'):
         if st.get('recurse', True) and not any(a == ('send', False) for a in script.values()):
             for k, x in zip(Dkeys[first + 1:], default[first + 1:]):
                 n = node_of(x)
+                if k not in yset and (id(n.a), k[1]) in yset:
+                    continue  # the same live node was yielded under the AST it stands for now (its statement changed class in place: Try <-> TryStar)
                 if k not in yset and alive(n, root) and id(n) not in excused and ('ast', k[0]) not in excused and _passes(n, allv):
                     return bad('live-node-after-the-action-never-yielded', f'{n!r} (reference position {idx[k]})')
         res.nontriv(ti, si, tuple(sorted(script.items())))
